@@ -19,6 +19,28 @@ def tlc_cfg(text, name, **kw):
     return vlib.tlc("MCWsPool", name, workdir=wd, **kw)
 
 
+def pool_linearizability(chk, sd, tier):
+    """concurrent clause: actors on one real pool in real parallel; TLC searches for a linearization (spec/LinPool.tla)"""
+    import json, cases
+    binp = vlib.go_build("poolconc", "internal/zz_verif/poolconc", ["poolconc/main.go"], sd,
+                         extra_overlay={"internal/loadbalancer/zz_verif_export.go": "accessors/lb_verif_export.go"})
+    cs, r = cases.enumerate_cases("GenLinPool", "GenLinPool.cfg", env={"TIER": tier})
+    chk.add_tlc("concurrent pool cases (spec/LinPool.tla)", r)
+    reps = 40 if tier == "thorough" else 10
+    tp = cases.execute(binp, cs, sd, "linpool", timeout=3000, extra_args=[str(reps)])
+    st = json.load(open(tp + ".ok"))
+    chk.cov["concurrent_histories_run"] = st["histories"]
+    chk.cov["concurrent_histories_distinct"] = st["distinct"]
+    chk.cov["traces_validated_against_impl"] += st["distinct"]
+
+    def sig(clause, e):
+        return {"clause": clause, "class": "concurrent", "regime": e["c"]["regime"], "maxidle": e["c"]["maxidle"],
+                "actors": ["".join(a) for a in e["c"]["actors"]]}
+    cases.judge(chk, "ObsLinPoolTrace", "ObsLinPoolTrace.cfg", tp, sig, "linpool", timeout=3000, parts=12)
+    with open(tp) as fh:
+        chk.sample({"concurrent_pool_history": json.loads(fh.readline())})
+
+
 def run(tier):
     chk = vlib.Check("C20", tier)
     sd = vlib.scratch("c20")
@@ -58,11 +80,9 @@ def run(tier):
             chk.violation(sig, [{"script": sc, "line": v["line"]}] + seg, name="%s-%s.ndjson" % (vv["clause"], v["seg"]))
     if scripts:
         chk.sample({"script": scripts[0]["id"], "cf": scripts[0]["cf"], "steps": scripts[0]["steps"][:14], "events": ev[1:12]})
-    try:
-        import tunnel
-        tunnel.run(chk, sd, tier)
-    except ImportError:
-        chk.notes.append("tunnel part not built yet")
+    import tunnel
+    tunnel.run(chk, sd, tier)
+    pool_linearizability(chk, sd, tier)
     chk.cov["exhaustive"] = True
     chk.cov["rule"] = "every transition of the TLA+ pool model (put/get/close/tick/cleanup/stats/shutdown, 1-2 backends, 3 connections, max_idle 0..3) replayed on the real WebSocketPool with fake net.Conns under virtual time"
     chk.assumptions += ["legal use only: callers put connections they hold, once", "1 tick = 10 s virtual; idle_timeout k ticks = 10k+2 s"]
